@@ -19,6 +19,7 @@ package recovery
 //@ pure func delayReal(c RetryConfig, attempt int) float64 = min(real(c.BaseDelay) * math.Pow(c.BackoffFactor, real(attempt - 1)), real(c.MaxDelay))
 //@ func (*DatabaseRecovery).calculateDelay
 //@   requires validRetry(dr.retryConfig) && attempt >= 1
+//@   opt overflow yes
 //@   ensures[C15.delay-range] 0 <= result && result <= dr.retryConfig.MaxDelay
 //@   ensures[C15.delay-formula] real(result) <= delayReal(dr.retryConfig, attempt) && delayReal(dr.retryConfig, attempt) < real(result) + 1.0
 
